@@ -273,6 +273,36 @@ Qed.
 Theorem slot_prev_spec s : slot_prev s = N.pred s /\ slot_prev s <= s /\ (0 < s -> slot_prev s + 1 = s).
 Proof. unfold slot_prev. destruct (N.eqb_spec s 0); subst; cbn; lia. Qed.
 
+(* ================= XorBytes32 ================= *)
+Lemma xor_bytes_length a b : length a = length b -> length (xor_bytes a b) = length a.
+Proof. revert b; induction a as [|x a IH]; intros [|y b] H; cbn in *; try discriminate; [reflexivity|]. f_equal. apply IH. now injection H. Qed.
+Lemma xor_bytes_comm a b : xor_bytes a b = xor_bytes b a.
+Proof. revert b; induction a as [|x a IH]; intros [|y b]; cbn; try reflexivity. rewrite N.lxor_comm. f_equal. apply IH. Qed.
+(* mixing the same value in twice restores the original (the randao mix / seed construction relies on it) *)
+Lemma xor_bytes_involutive a b : length a = length b -> xor_bytes (xor_bytes a b) b = a.
+Proof.
+  revert b; induction a as [|x a IH]; intros [|y b] H; cbn in *; try discriminate; [reflexivity|].
+  rewrite N.lxor_assoc, N.lxor_nilpotent, N.lxor_0_r. f_equal. apply IH. now injection H.
+Qed.
+Lemma xor_bytes_nth a b i : length a = length b -> (i < length a)%nat ->
+  nth i (xor_bytes a b) 0 = N.lxor (nth i a 0) (nth i b 0).
+Proof.
+  revert b i; induction a as [|x a IH]; intros [|y b] i H Hi; cbn in *; try discriminate; [lia|].
+  destruct i as [|i]; [reflexivity|]. apply IH; [now injection H|lia].
+Qed.
+Lemma xor_bytes_byte a b : Forall (fun x => x < 256) a -> Forall (fun x => x < 256) b ->
+  Forall (fun x => x < 256) (xor_bytes a b).
+Proof.
+  intros Ha; revert b; induction Ha as [|x a Hx Ha IH]; intros b Hb; [constructor|].
+  destruct Hb as [|y b Hy Hb]; cbn; constructor; [|apply IH; exact Hb].
+  destruct (N.eq_dec (N.lxor x y) 0) as [->|Hnz]; [lia|].
+  apply N.log2_lt_pow2 with (b := 8); [lia|].
+  eapply N.le_lt_trans; [apply N.log2_lxor|].
+  apply N.max_lub_lt.
+  - destruct (N.eq_dec x 0) as [->|]; [cbn; lia|]. apply N.log2_lt_pow2; lia.
+  - destruct (N.eq_dec y 0) as [->|]; [cbn; lia|]. apply N.log2_lt_pow2; lia.
+Qed.
+
 (* ================= slot span ================= *)
 Theorem check_slot_span_iff mn mx slot span : slot < two64 -> span < two64 ->
   check_slot_span mn mx slot span = check_slot_span_spec mn mx slot span.
